@@ -29,6 +29,15 @@ type BoolSim struct {
 	// Returns records, after Run, every (return, evaluated boolean results) that was reached;
 	// a result that is not a known boolean is "?".
 	Returns []SimReturn
+	// Watch: when a block containing the key instruction is processed, the listed
+	// values are evaluated in the current environment; Observed[instr][k] collects
+	// "true", "false" or "?" for the k-th value.
+	Watch    map[ssa.Instruction][]ssa.Value
+	Observed map[ssa.Instruction][]map[string]bool
+	// Track: phis (of any type) whose incoming value is followed per path; for a watched
+	// value that is a tracked phi, ObservedVals collects the values it stood for.
+	Track        map[*ssa.Phi]bool
+	ObservedVals map[ssa.Instruction][]map[ssa.Value]bool
 }
 
 // SimReturn is one way a return was reached: Vals[k] is "true", "false" or "?".
@@ -65,9 +74,10 @@ func (s *BoolSim) ValuesAt(v ssa.Value, b *ssa.BasicBlock) []ssa.Value {
 }
 
 type simState struct {
-	b    *ssa.BasicBlock
-	pred int
-	env  map[ssa.Value]bool
+	b      *ssa.BasicBlock
+	pred   int
+	env    map[ssa.Value]bool
+	choice map[*ssa.Phi]ssa.Value
 }
 
 func (s *BoolSim) eval(v ssa.Value, env map[ssa.Value]bool) (bool, bool) {
@@ -111,6 +121,18 @@ func envKey(env map[ssa.Value]bool) string {
 	return strings.Join(ks, ",")
 }
 
+func choiceKey(ch map[*ssa.Phi]ssa.Value) string {
+	if len(ch) == 0 {
+		return ""
+	}
+	var ks []string
+	for p, v := range ch {
+		ks = append(ks, p.Name()+"="+v.Name())
+	}
+	sort.Strings(ks)
+	return strings.Join(ks, ",")
+}
+
 // Run returns the blocks reachable from the entry under the assignment.
 func (s *BoolSim) Run() map[*ssa.BasicBlock]bool {
 	reached := map[*ssa.BasicBlock]bool{}
@@ -118,7 +140,7 @@ func (s *BoolSim) Run() map[*ssa.BasicBlock]bool {
 	s.Returns = nil
 	seenRet := map[string]bool{}
 	seen := map[string]bool{}
-	work := []simState{{s.Fn.Blocks[0], -1, map[ssa.Value]bool{}}}
+	work := []simState{{s.Fn.Blocks[0], -1, map[ssa.Value]bool{}, nil}}
 	steps := 0
 	for len(work) > 0 && steps < 200000 {
 		steps++
@@ -144,13 +166,42 @@ func (s *BoolSim) Run() map[*ssa.BasicBlock]bool {
 			}
 			env = nenv
 		}
+		choice := st.choice
+		if st.pred >= 0 && len(s.Track) > 0 {
+			var nch map[*ssa.Phi]ssa.Value
+			for _, in := range st.b.Instrs {
+				ph, ok := in.(*ssa.Phi)
+				if !ok {
+					break
+				}
+				if !s.Track[ph] {
+					continue
+				}
+				if nch == nil {
+					nch = make(map[*ssa.Phi]ssa.Value, len(choice)+1)
+					for k, v := range choice {
+						nch[k] = v
+					}
+				}
+				e := ph.Edges[st.pred]
+				if eph, ok := e.(*ssa.Phi); ok {
+					if cv, ok := choice[eph]; ok { // (phis read the old choices)
+						e = cv
+					}
+				}
+				nch[ph] = e
+			}
+			if nch != nil {
+				choice = nch
+			}
+		}
 		if st.pred >= 0 {
 			if s.In[st.b] == nil {
 				s.In[st.b] = map[int]bool{}
 			}
 			s.In[st.b][st.pred] = true
 		}
-		key := fmt.Sprintf("%d|%s", st.b.Index, envKey(env))
+		key := fmt.Sprintf("%d|%s|%s", st.b.Index, envKey(env), choiceKey(choice))
 		if seen[key] {
 			continue
 		}
@@ -173,6 +224,40 @@ func (s *BoolSim) Run() map[*ssa.BasicBlock]bool {
 		for _, in := range st.b.Instrs {
 			if s.Stop[in] {
 				stopped = true
+			}
+			if vals, ok := s.Watch[in]; ok {
+				if s.Observed == nil {
+					s.Observed = map[ssa.Instruction][]map[string]bool{}
+				}
+				if s.Observed[in] == nil {
+					s.Observed[in] = make([]map[string]bool, len(vals))
+				}
+				for k, v := range vals {
+					if s.Observed[in][k] == nil {
+						s.Observed[in][k] = map[string]bool{}
+					}
+					if val, known := s.eval(v, env); known {
+						s.Observed[in][k][fmt.Sprint(val)] = true
+					} else {
+						s.Observed[in][k]["?"] = true
+					}
+					if ph, ok := v.(*ssa.Phi); ok && s.Track[ph] {
+						if s.ObservedVals == nil {
+							s.ObservedVals = map[ssa.Instruction][]map[ssa.Value]bool{}
+						}
+						if s.ObservedVals[in] == nil {
+							s.ObservedVals[in] = make([]map[ssa.Value]bool, len(vals))
+						}
+						if s.ObservedVals[in][k] == nil {
+							s.ObservedVals[in][k] = map[ssa.Value]bool{}
+						}
+						if cv, ok := choice[ph]; ok {
+							s.ObservedVals[in][k][cv] = true
+						} else {
+							s.ObservedVals[in][k][ph] = true
+						}
+					}
+				}
 			}
 		}
 		if stopped {
@@ -205,12 +290,12 @@ func (s *BoolSim) Run() map[*ssa.BasicBlock]bool {
 				if same && si == 1 {
 					k = 1
 				}
-				work = append(work, simState{succ, predIdx(succ, k), env})
+				work = append(work, simState{succ, predIdx(succ, k), env, choice})
 			}
 			continue
 		}
 		for _, succ := range st.b.Succs {
-			work = append(work, simState{succ, predIdx(succ, 0), env})
+			work = append(work, simState{succ, predIdx(succ, 0), env, choice})
 		}
 	}
 	return reached
